@@ -35,9 +35,15 @@
       caller's ranges (via C15: foldl_applyOp / contains_eq_any / dynamic_eq_any); literal_set_canonical;
     * cmd_fidelity_{copy,move,move_emulated,store,uid_expunge}_literal, cmd_delivers_fetch_literal,
       cmd_delivers_search_literal (sets anywhere in the criteria tree): the session receives `delivN s`.
-      (`sem` normalises sets with its own interval normal form `normSet`; `normSet rs = delivSet rs` is not proved —
-      the oracle compares both through `normSet` on every run — so the literal theorems name `delivSet` and
-      characterise it by denotation, and the `sem` theorems assume the set is canonical and in normal form.)
+    * normSet_eq_delivSet: `sem` normalises sets with its own interval normal form `normSet` (bounds ordered, `*` =
+      2^32, sorted by lower bound, overlapping / adjacent intervals merged); for a literal set `normSet rs = delivSet rs`
+      under the decidable side condition `TopOK rs` (some range is `n:*`, or none is the lone `*`, or no bound is
+      4294967295).  The condition is needed: next to a lone `*` the parser keeps `n:4294967295,*` where the interval
+      normal form writes `n:*` (normSet_top_counterexample; same members — the oracle compares both through `normSet` on
+      every run).  Consequences: literal_set_sem (`delivN s = canonNSet s`), canonical_set_nf (`SetNF` follows from
+      `SetOK` + `SetTop`), and the literal theorems stated with `sem` directly:
+      cmd_fidelity_{copy,move,move_emulated,store,uid_expunge}_literal_sem, cmd_delivers_fetch_literal_sem
+      (SEARCH with literal sets stays stated with `delivCrit`).
     * outside: the empty set and `{Start: 0, Stop: n≠0}` (printed as `*`, the stop is lost) — the client refuses
       the first; the second is not a value the API builds (`inDomain` excludes both via `validNSet`).
 
@@ -59,6 +65,7 @@
 -/
 import GoImap.Spec.CmdGrammar
 import GoImap.Lemmas.CmdGrammarLitCmds
+import GoImap.Lemmas.CmdGrammarNormSet
 namespace GoImap.C02
 open GoImap.CmdGrammar GoImap.CmdSpec GoImap.CmdLemmas
 
@@ -430,5 +437,76 @@ theorem cmd_delivers_search_literal (cfg : Cfg) (tag : Nat) (uid : Bool) (c : Cr
     (hd : depth c < maxListDepth) :
     Delivers {} cfg tag (.search uid c o) [.search uid (delivCrit c) (canonSearchOpts o)] :=
   search_delivers cfg tag uid c o hok hd
+
+/-! ## the specification's normal form of a literal set is the delivered set
+
+  `sem` normalises a set with its own interval normal form (`normSet`: bounds ordered, `*` = 2^32 above every number,
+  sorted by lower bound, overlapping or adjacent intervals merged).  For a literal set this is the set the server's
+  `ParseSet` builds — with one exception, found by evaluating both sides: next to a lone `*`, a range that ends in
+  4294967295 stays `n:4294967295,*` in the parser's set (`Range.Merge` never merges the lone `*`), while the interval
+  normal form writes `n:*`.  Both denote the same messages; `TopOK` excludes exactly that shape: some range is `n:*`,
+  or no range is the lone `*`, or no bound is 4294967295. -/
+
+/-- the interval normal form of the caller's ranges equals the set `ParseSet` builds from their printed form -/
+theorem normSet_eq_delivSet (rs : NumSet.Set) (h : LitOK rs) (ht : TopOK rs = true) : normSet rs = delivSet rs :=
+  normSet_eq_delivSet_of rs h ht
+
+/-- the side condition holds for an unsorted, overlapping, reversed set with a lone `*`, an `n:*` and a bound 2^32-1 -/
+example : LitOK [⟨5, 3⟩, ⟨0, 0⟩, ⟨1, 4⟩, ⟨9, 0⟩, ⟨7, 7⟩, ⟨4294967295, 12⟩] ∧
+    TopOK [⟨5, 3⟩, ⟨0, 0⟩, ⟨1, 4⟩, ⟨9, 0⟩, ⟨7, 7⟩, ⟨4294967295, 12⟩] = true ∧
+    normSet [⟨5, 3⟩, ⟨0, 0⟩, ⟨1, 4⟩, ⟨9, 0⟩, ⟨7, 7⟩, ⟨4294967295, 12⟩] = [⟨1, 5⟩, ⟨7, 7⟩, ⟨9, 0⟩] := by
+  refine ⟨⟨by decide, ?_⟩, by decide, by decide⟩
+  intro r hr
+  simp only [List.mem_cons, List.not_mem_nil, or_false] at hr
+  rcases hr with rfl | rfl | rfl | rfl | rfl | rfl <;> simp [RangeLit, NumSet.W]
+
+/-- … and for one with the lone `*` only -/
+example : TopOK [⟨0, 0⟩, ⟨5, 3⟩, ⟨4, 8⟩] = true ∧ normSet [⟨0, 0⟩, ⟨5, 3⟩, ⟨4, 8⟩] = [⟨3, 8⟩, ⟨0, 0⟩] := by decide
+
+/-- without the side condition the two normal forms differ (same members, different lists) -/
+theorem normSet_top_counterexample :
+    TopOK [⟨3, 4294967295⟩, ⟨0, 0⟩] = false ∧ normSet [⟨3, 4294967295⟩, ⟨0, 0⟩] = [⟨3, 0⟩] ∧
+    delivSet [⟨3, 4294967295⟩, ⟨0, 0⟩] = [⟨3, 4294967295⟩, ⟨0, 0⟩] := by decide
+
+/-- what the session receives for a literal set argument is `sem`'s normal form of it -/
+theorem literal_set_sem (s : NSet) (h : SetLit s) (ht : SetTop s) : delivN s = canonNSet s := delivN_eq_canonNSet s h ht
+
+/-- a canonical set is in the specification's normal form: `SetNF` in the `sem` theorems above follows from `SetOK`
+    unless the set ends in `n:4294967295,*` -/
+theorem canonical_set_nf (s : NSet) (h : SetOK s) (ht : SetTop s) : SetNF s := setNF_of_ok s h ht
+
+theorem cmd_fidelity_copy_literal_sem (cfg : Cfg) (tag : Nat) (uid : Bool) (s : NSet) (m : List Nat)
+    (hs : SetLit s) (ht : SetTop s) (hm : MailboxOK m) :
+    roundTrip {} cfg tag (.copy uid s m) = .calls (sem cfg (.copy uid s m)) := by
+  rw [cmd_fidelity_copy_literal cfg tag uid s m hs hm, delivN_eq_canonNSet s hs ht]; rfl
+
+theorem cmd_fidelity_move_literal_sem (cfg : Cfg) (tag : Nat) (uid : Bool) (s : NSet) (m : List Nat)
+    (hs : SetLit s) (ht : SetTop s) (hm : MailboxOK m) (hmove : cfg.hasMove = true) :
+    roundTrip {} cfg tag (.move uid s m) = .calls (sem cfg (.move uid s m)) := by
+  rw [cmd_fidelity_move_literal cfg tag uid s m hs hm hmove, delivN_eq_canonNSet s hs ht]
+  simp [sem, semRaw, canon, hmove]
+
+theorem cmd_fidelity_move_emulated_literal_sem (cfg : Cfg) (tag : Nat) (uid : Bool) (s : NSet) (m : List Nat)
+    (hs : SetLit s) (ht : SetTop s) (hm : MailboxOK m) (hmove : cfg.hasMove = false) :
+    roundTrip {} cfg tag (.move uid s m) = .calls (sem cfg (.move uid s m)) := by
+  rw [cmd_fidelity_move_emulated_literal cfg tag uid s m hs hm hmove, delivN_eq_canonNSet s hs ht]
+  cases hx : (uid && cfg.hasUidPlus) <;> simp [sem, semRaw, canon, hmove, hx] <;> decide
+
+theorem cmd_fidelity_store_literal_sem (cfg : Cfg) (tag : Nat) (uid : Bool) (s : NSet) (op : Nat) (silent : Bool)
+    (flags : List Str) (hs : SetLit s) (ht : SetTop s) (hop : op ≤ 2) (hf : ∀ f ∈ flags, FlagOK f) :
+    roundTrip {} cfg tag (.store uid s op silent flags) = .calls (sem cfg (.store uid s op silent flags)) := by
+  rw [cmd_fidelity_store_literal cfg tag uid s op silent flags hs hop hf, delivN_eq_canonNSet s hs ht]; rfl
+
+theorem cmd_fidelity_uid_expunge_literal_sem (cfg : Cfg) (tag : Nat) (s : NSet) (hs : SetLit s) (ht : SetTop s) :
+    roundTrip {} cfg tag (.expunge (some s)) = .calls (sem cfg (.expunge (some s))) := by
+  rw [cmd_fidelity_uid_expunge_literal cfg tag s hs, delivN_eq_canonNSet s hs ht]; rfl
+
+/-- FETCH with a literal set, any order of the scalar items -/
+theorem cmd_delivers_fetch_literal_sem (cfg : Cfg) (tag : Nat) (uid : Bool) (s : NSet) (o : FetchOpts)
+    (hs : SetLit s) (ht : SetTop s) (ho : FetchOK o) :
+    Delivers {} cfg tag (.fetch uid s o) (sem cfg (.fetch uid s o)) := by
+  have := cmd_delivers_fetch_literal cfg tag uid s o hs ho
+  rw [delivN_eq_canonNSet s hs ht] at this
+  cases uid <;> simpa [sem, semRaw, canon] using this
 
 end GoImap.C02
